@@ -35,19 +35,22 @@ PROPERTIES = {
     "C05": {
         "claim": "Proof, for the RTP/RTCP wire parsers under contract (rtp.py: unpack_remb_fci, unpack_header_extensions, "
                  "unpack_packets_lost, RtcpReceiverInfo.parse, RtcpSenderInfo.parse, RtcpPsfbPacket.parse, RtcpByePacket.parse, "
-                 "is_rtcp; rtcsctptransport.py: "
-                 "decode_params, the DATA/SACK/FORWARD-TSN/INIT/SHUTDOWN/params chunk constructors, the three RFC 6525 "
-                 "parameter parsers; codecs/vpx.py: VpxPayloadDescriptor.parse), that for every byte string they return or "
+                 "is_rtcp, RtcpSdesPacket.parse, RtcpRtpfbPacket.parse (NACK); rtcsctptransport.py: "
+                 "parse_packet (every chunk class of the dispatch table, checksum gate), decode_params, the "
+                 "DATA/SACK/FORWARD-TSN/INIT/SHUTDOWN/params chunk constructors, the three RFC 6525 "
+                 "parameter parsers; codecs/vpx.py: VpxPayloadDescriptor.parse; codecs/h264.py: H264PayloadDescriptor.parse; "
+                 "rtcrtpreceiver.py: NackGenerator.add), that for every byte string they return or "
                  "raise ValueError only (no struct.error/IndexError/TypeError) and every loop terminates (decreases "
                  "clauses). Reduced: the dispatch layer and the remaining parsers are not under contract.",
         "note": "Only the listed parser functions are decided; the rest of the receive path (RtpPacket.parse, "
-                "RtcpPacket.parse and its per-type parsers, parse_packet, H264PayloadDescriptor.parse, transports, "
-                "_receive_chunk) is outside this check. "
+                "RtcpPacket.parse dispatch, RR/SR parsers, transports, _receive_chunk) is outside this check. parse_packet's "
+                "call of a class from the chunk dispatch table is discharged modularly: every class in the table has a "
+                "constructor contract whose only exceptional exit is ValueError. "
                 "Trusted: pyvc engine and prelude axioms for struct/bytes.",
         "design_ref": "DESIGN.md 4.5, 9",
         "trusted_base": COMMON,
-        "not_decided": ["RtpPacket.parse / RtcpPacket.parse dispatch", "parse_packet", "H264PayloadDescriptor.parse",
-                        "memory/time proportionality", "transport stays up afterwards"],
+        "not_decided": ["RtpPacket.parse / RtcpPacket.parse dispatch, RR/SR parsers", "_handle_data / _receive_chunk dispatch",
+                        "memory/time proportionality beyond loop variants bounded by the input length", "transport stays up afterwards"],
     },
     "C06": {
         "claim": "Proof for the pieces of partial reliability that are single functions: RTCSctpTransport."
@@ -70,13 +73,16 @@ PROPERTIES = {
                  "for all in-range field values, 24-bit signed loss clamp/pack/unpack round trip and saturation, REMB "
                  "FCI encoder (mantissa = bitrate >> exponent with minimal exponent: never rounds up, relative error "
                  "< 2^-17) and decoder, pack_rtcp_packet header layout, payload-specific feedback (PSFB) serialise/parse round "
-                 "trip on every field, BYE source list decoding, header-extension pack/unpack shape facts. "
-                 "Reduced: RtpPacket/compound RtcpPacket serialise/parse, NACK and RTX are not under contract.",
+                 "trip on every field, BYE source list decoding, header-extension pack/unpack shape facts, SDES parsing (shape, "
+                 "ValueError only), NACK parsing: every listed number is a 16-bit sequence number, every packet id is listed and "
+                 "for the first and last mask bit the denoted number (pid + bit + 1 mod 2^16) is listed, at most 17 per entry. "
+                 "Reduced: RtpPacket/compound RtcpPacket serialise/parse, NACK serialisation and the 14 middle mask bits, RTX "
+                 "are not under contract.",
         "note": "Round trip is proved as composition lemmas (harnesses) over the callee contracts; wire-range "
                 "preconditions (fields fit their widths) are stated in requires. Whole-packet round trips are not decided.",
         "design_ref": "DESIGN.md 4.7, 9",
         "trusted_base": COMMON,
-        "not_decided": ["RtpPacket.serialize/parse round trip", "RtcpPacket compound round trip", "NACK set equality (F-11)",
+        "not_decided": ["RtpPacket.serialize/parse round trip", "RtcpPacket compound round trip", "NACK serialisation and full set equality (F-11 fixed in parse and __bytes__; only parse is under contract)",
                         "RTX wrap/unwrap", "HeaderExtensionsMap.get/set (F-4, F-10)"],
     },
     "C08": {
@@ -85,13 +91,17 @@ PROPERTIES = {
                  "lengths (all four padding cases); SACK, FORWARD-TSN, SHUTDOWN, INIT constructors decode exactly the "
                  "RFC 4960/3758 field layout (gap and duplicate lists element by element) and reject truncated bodies with "
                  "ValueError under an exact stated condition; decode_params terminates and RFC 6525 parameter parsers decode "
-                 "exactly. Reduced: parse_packet/serialize_packet and the CRC-32c burst claim are not under contract.",
-        "note": "crc32c is an external C function and the chunk-type dispatch table is not modelled, so whole-packet round "
-                "trip, byte-identical re-serialisation of SACK/INIT/param chunks and checksum rejection are NOT decided. "
+                 "exactly; parse_packet returns the ports and tag of the common header and hands no chunk on unless the little-endian "
+                 "checksum field equals crc32c of the packet with that field zeroed (crc32c uninterpreted), rejects bad chunk "
+                 "lengths with ValueError and terminates. Reduced: serialize_packet, the whole-packet round trip and the CRC-32c "
+                 "burst claim are not under contract.",
+        "note": "crc32c is an external C function (uninterpreted); which key of the chunk dispatch table maps to which class is "
+                "not modelled, so whole-packet round trip and byte-identical re-serialisation of SACK/INIT/param chunks are NOT "
+                "decided; that a burst of <= 32 flipped bits changes the CRC verdict is a property of CRC-32c, not decided. "
                 "Chunk.__bytes__ (generic header + padding) and encode_params are proved for shape only.",
         "design_ref": "DESIGN.md 4.8, 9",
         "trusted_base": COMMON,
-        "not_decided": ["parse_packet / serialize_packet (crc32c external)", "single-burst checksum claim",
+        "not_decided": ["serialize_packet and parse(serialize(x)) == x", "single-burst checksum claim (property of CRC-32c itself)",
                         "encode_params/decode_params value round trip", "SackChunk.__bytes__ / body properties of Init, ForwardTsn"],
     },
     "C10": {
